@@ -53,7 +53,7 @@ impl ChildOut {
 /// Re-exec this binary as `child <args..>` with extra/removed environment variables.
 pub fn spawn_child(args: &[String], env: &[(&str, Option<String>)], timeout: Duration) -> Result<ChildOut, String> {
     use std::os::unix::process::ExitStatusExt;
-    let exe = std::env::current_exe().map_err(|e| format!("current_exe: {}", e))?;
+    let exe = Ok::<std::path::PathBuf, std::io::Error>(std::path::PathBuf::from("/proc/self/exe")).map_err(|e| format!("current_exe: {}", e))?;
     let mut cmd = Command::new(exe);
     cmd.arg("child").args(args);
     cmd.stdin(Stdio::null()).stdout(Stdio::piped()).stderr(Stdio::piped());
